@@ -186,6 +186,8 @@ def run(ctx):
     rule_r2(facts, ctx)
     rule_r3(facts, ctx)
     rule_r4(facts, ctx)
+    from .. import controls
+    controls.expect(ctx, "C16.R2", rule_r2, "BadSource", "finite source that never asks done()")
     ctx.floor("C16.R1", 1, "Repeat::again arithmetic")
     ctx.floor("C16.R2", 3, "VectorSource, FileSource, SigMFSource work()")
     ctx.floor("C16.R3", 3, "the three marker tags of VectorSource")
